@@ -30,6 +30,8 @@
 #include "QXmppFileSharingManager.h"
 #include "QXmppHttpUploadManager.h"
 #include "QXmppIq.h"
+#include "QXmppIqHandling.h"
+#include "QXmppPromise.h"
 #include "QXmppJingleMessageInitiationManager.h"
 #include "QXmppLogger.h"
 #include "QXmppMamManager.h"
@@ -260,6 +262,125 @@ struct TransferPolicy {
     }
 };
 
+// ------------------------------------------------------------------------------------------------ application extensions
+// Extensions as an application would write them, answering through the PUBLIC helper QXmpp::handleIqRequests<>()
+// (QXmppIqHandling.h) in every documented way. One IQ class per (what the handler returns) x (how it is handed over);
+// the payload is <app-STYLE-VIA xmlns='urn:example:app'/>.
+//   STYLE: fresh   = a new IQ object, type left at its default (get)         VIA: direct  = the IQ type itself
+//          echo    = the received IQ itself (type get or set), filled in           variant = std::variant<Iq, QXmppStanza::Error>
+//          result  = a new IQ explicitly typed result                              task    = QXmppTask<Iq>, already finished
+//          erroriq = a new IQ typed error with an <error/>                         later   = QXmppTask<Iq>, finished from the event loop
+//          error   = a QXmppStanza::Error (needs a variant)                        taskvar = QXmppTask<std::variant<…>>, finished later
+// The three QXmppTask ways are documented ("3. a QXmppTask of 1. or 2.") but do not compile with the header as it is:
+// processHandleIqResult(…, QXmppTask<T>) passes the task's value on as an lvalue and no overload takes one
+// (fixes/C08-helper-task-result-forwarding.diff moves it). They are compiled in with -DC08_HELPER_TASKS=1 once that is fixed.
+#ifndef C08_HELPER_TASKS
+#define C08_HELPER_TASKS 0
+#endif
+static const char *NS_APP = "urn:example:app";
+enum AppStyle { Fresh, Echo, Result, ErrorIq, ErrorObj };
+enum AppVia { ViaDirect, ViaVariant, ViaTask, ViaLater, ViaTaskVar };
+static const char *appStyleName[] = { "fresh", "echo", "result", "erroriq", "error" };
+static const char *appViaName[] = { "direct", "variant", "task", "later", "taskvar" };
+static string appTag(int st, int via) { return string("app-") + appStyleName[st] + "-" + appViaName[via]; }
+
+template<int St, int Via>
+class AppIq : public QXmppIq
+{
+public:
+    QString text;
+    static bool checkIqType(const QString &tagName, const QString &xmlns)
+    {
+        return tagName == QString::fromStdString(appTag(St, Via)) && xmlns == QString::fromLatin1(NS_APP);
+    }
+protected:
+    void parseElementFromChild(const QDomElement &element) override { text = element.firstChildElement().text(); }
+    void toXmlElementFromChild(QXmlStreamWriter *writer) const override
+    {
+        writer->writeStartElement(QString::fromStdString(appTag(St, Via)));
+        writer->writeDefaultNamespace(QString::fromLatin1(NS_APP));
+        writer->writeCharacters(text);
+        writer->writeEndElement();
+    }
+};
+
+struct AppHandler {
+    QObject *context;
+    template<int St, int Via>
+    auto handleIq(AppIq<St, Via> &&iq)
+    {
+        using Iq = AppIq<St, Via>;
+        using Var = std::variant<Iq, QXmppStanza::Error>;
+        using Err = QXmppStanza::Error;
+        // the object the application hands back
+        auto make = [&]() -> Var {
+            if constexpr (St == ErrorObj) {
+                return Err(Err::Modify, Err::BadRequest, QStringLiteral("no"));
+            } else if constexpr (St == Echo) {
+                iq.text = QStringLiteral("stored:") + iq.text;   // fill in the request and hand it back
+                iq.setFrom({});                                  // (documented: id, to and type are set by the helper)
+                return std::move(iq);
+            } else {
+                Iq out;
+                out.text = QStringLiteral("value");
+                if constexpr (St == Result) out.setType(QXmppIq::Result);
+                if constexpr (St == ErrorIq) { out.setType(QXmppIq::Error); out.setError(Err(Err::Modify, Err::BadRequest, QStringLiteral("no"))); }
+                return out;
+            }
+        };
+        if constexpr (Via == ViaDirect) {
+            return std::get<Iq>(make());
+        } else if constexpr (Via == ViaVariant) {
+            return make();
+        }
+#if C08_HELPER_TASKS
+        else if constexpr (Via == ViaTask) {
+            return QXmpp::Private::makeReadyTask(std::get<Iq>(make()));
+        } else if constexpr (Via == ViaLater) {
+            QXmppPromise<Iq> p;
+            auto t = p.task();
+            QMetaObject::invokeMethod(context, [p, v = std::get<Iq>(make())]() mutable { p.finish(std::move(v)); }, Qt::QueuedConnection);
+            return t;
+        } else {
+            QXmppPromise<Var> p;
+            auto t = p.task();
+            QMetaObject::invokeMethod(context, [p, v = make()]() mutable { p.finish(std::move(v)); }, Qt::QueuedConnection);
+            return t;
+        }
+#endif
+    }
+};
+
+// every (style, via) that exists: a QXmppStanza::Error can only travel in a variant
+#if C08_HELPER_TASKS
+#define APP_IQS(S) AppIq<S, ViaDirect>, AppIq<S, ViaVariant>, AppIq<S, ViaTask>, AppIq<S, ViaLater>, AppIq<S, ViaTaskVar>
+#define APP_ALL APP_IQS(Fresh), APP_IQS(Echo), APP_IQS(Result), APP_IQS(ErrorIq), AppIq<ErrorObj, ViaVariant>, AppIq<ErrorObj, ViaTaskVar>
+#else
+#define APP_IQS(S) AppIq<S, ViaDirect>, AppIq<S, ViaVariant>
+#define APP_ALL APP_IQS(Fresh), APP_IQS(Echo), APP_IQS(Result), APP_IQS(ErrorIq), AppIq<ErrorObj, ViaVariant>
+#endif
+
+// new-style extension: passes the e2ee metadata on, handler object with handleIq() overloads
+class AppExtension : public QXmppClientExtension
+{
+public:
+    bool handleStanza(const QDomElement &element, const std::optional<QXmppE2eeMetadata> &e2eeMetadata) override
+    {
+        AppHandler h { this };
+        return QXmpp::handleIqRequests<APP_ALL>(element, e2eeMetadata, client(), &h);
+    }
+};
+// old-style extension: the 3-argument helper, a callable as handler
+class AppExtensionOld : public QXmppClientExtension
+{
+public:
+    bool handleStanza(const QDomElement &element) override
+    {
+        AppHandler h { this };
+        return QXmpp::handleIqRequests<APP_ALL>(element, client(), [&h](auto &&iq) { return h.handleIq(std::move(iq)); });
+    }
+};
+
 // a do-nothing extension placed before/between/after the managers: tells which manager consumed a stanza
 class Probe : public QXmppClientExtension
 {
@@ -331,6 +452,9 @@ static vector<MgrDef> &mgrDefs()
         { "userTune", "QXmppUserTuneManager", [](TestClient *) { return new QXmppUserTuneManager; }, {} },
         { "atm", "QXmppAtmManager", [](TestClient *) { return new QXmppAtmManager(new QXmppAtmTrustMemoryStorage); }, {} },
         { "fileSharing", "QXmppFileSharingManager", [](TestClient *) { return new QXmppFileSharingManager; }, {} },
+        // not bundled: application-style extensions answering through QXmpp::handleIqRequests<>()
+        { "app", "AppExtension", [](TestClient *) { return new AppExtension; }, {} },
+        { "app-old", "AppExtensionOld", [](TestClient *) { return new AppExtensionOld; }, {} },
     };
     return v;
 }
@@ -518,6 +642,22 @@ static vector<KeyDef> keyDefs()
     };
 }
 
+static vector<KeyDef> appKeyDefs()
+{
+    vector<KeyDef> v;
+    for (int st = 0; st < 5; st++) for (int via = 0; via < 5; via++) {
+        if (st == ErrorObj && via != ViaVariant && via != ViaTaskVar) continue;
+        if (!C08_HELPER_TASKS && via >= ViaTask) continue;
+        KeyDef k { string("app-") + appStyleName[st], appTag(st, via), NS_APP, { "app", "app-old" }, {} };
+        if (st == Echo && via == ViaDirect)  // one key also in all structural shapes
+            k.vars = { { "full-direct", "", "<text>hello</text>", 0 }, { "min", "", "", 0 }, { "full", "", "<text>hello</text>", 0 }, { "bad", "x='1'", "<text><text/></text>junk", 0 } };
+        else
+            k.vars = { { string("min-") + appViaName[via], "", st % 2 ? "<text>t</text>" : "", 0 } };
+        v.push_back(k);
+    }
+    return v;
+}
+
 static vector<Payload> buildCatalogue(bool thorough)
 {
     vector<Payload> out;
@@ -532,7 +672,9 @@ static vector<Payload> buildCatalogue(bool thorough)
     add("unknown-x2", "unknown", UNK + "<baz xmlns='urn:example:unknown2'><query/></baz>", { 0, 0 }, {});
     add("error-only", "unknown", ERRCHILD, { 0 }, {});
     add("text-only", "none", "just some text", {}, {});
-    for (auto &k : keyDefs()) {
+    auto keys = keyDefs();
+    for (auto &k : appKeyDefs()) keys.push_back(k);
+    for (auto &k : keys) {
         const Variant *mn = nullptr, *full = nullptr;
         for (auto &v : k.vars) {
             add(k.key + "." + v.label, k.key, el(k.tag, k.ns, v.attrs, v.inner), { v.flag }, k.owners);
@@ -940,7 +1082,10 @@ static void runCell(Built &b, const Cell &cell, Rng &rng, bool emitLine = true)
             r.shapeOk = nErr == 1 && nCond == 1 && errTypes.count(r.errType);
         } else {
             r.kind = "result";
-            r.shapeOk = nErr == 0;
+            // a result that carries an <error/> (an application handing back a request that itself contained one) is odd
+            // but not against the property: counted, not failed
+            r.shapeOk = true;
+            if (nErr) stat("result_replies_carrying_an_error_child");
         }
         // a reply must not claim to come from somebody else
         if (!rfrom.empty() && rfrom != OWN_FULL) r.shapeOk = false;
